@@ -177,7 +177,7 @@ def handle (toks : List String) : Option String :=
       match hd with
       | "c04" :: mode :: _target :: sigS :: opts =>
         if mode != "call" && mode != "callm" && mode != "calld" && mode != "eval" then some "bad-op" else
-        if opts != [] && opts != ["s"] then some "bad-op" else
+        if !(opts == [] || opts == ["s"] || opts == ["d"] || opts == ["sd"]) then some "bad-op" else
         if secs.isEmpty then some "bad-op" else
         match parseSig sigS with
         | none => some "bad-op"
